@@ -76,24 +76,16 @@ is_ipv6 (const char *start, const char *end)
     int     len = 0;
 
 
-    for ( ; cp < (unsigned char *) end; ) {
+    for ( ; cp < (unsigned char *) end && *cp != 0; ) {
         switch (*cp) {
-        case 0:
-            /* Terminate the loop. */
-            if (field < 2) {
-                /* too few `:' in IPv6 address*/
-                return (NO);
-            }
-            else if (len == 0 && null_field != field - 1) {
-                /* bad null last field in IPv6 address */
-                return (NO);
-            }
-            else
-                return (YES);
         case '.':
             /* Terminate the loop. */
             if (field < 2 || field > 6) {
                 /* malformed IPv4-in-IPv6 address */
+                return (NO);
+            }
+            else if (null_field == 0 && field != 6) {
+                /* too few fields before IPv4-in-IPv6 address */
                 return (NO);
             }
             else
@@ -135,6 +127,20 @@ is_ipv6 (const char *start, const char *end)
         } break;
         } /* switch */
     } /* for (;;) */
+
+    /* The end pointer or the terminator has been reached. */
+    if (field < 2) {
+        /* too few `:' in IPv6 address*/
+        return (NO);
+    }
+    else if (len == 0 && null_field != field - 1) {
+        /* bad null last field in IPv6 address */
+        return (NO);
+    }
+    else if (null_field == 0 && field != 7) {
+        /* too few fields in IPv6 address without `::' */
+        return (NO);
+    }
 
     return (YES);
 }
